@@ -54,7 +54,7 @@ func layoutCheck() string {
 	if !live {
 		ok = false
 	}
-	return fmt.Sprintf("layout=%v fields=%s size=%d live=%v", ok, got, unsafe.Sizeof(sync.Mutex{}), live)
+	return fmt.Sprintf("layout=%v fields=%s size=%d live=%v generated=%v", ok, got, unsafe.Sizeof(sync.Mutex{}), live, vxGenerated)
 }
 
 func newCase(spec string) *mxCase {
